@@ -100,6 +100,14 @@ theorem merge_wf (o : ListStrategy) (a b : AMap Node) (ha : (Node.cont a).WF) (h
   have := wf_mergeNode o (.cont a) (.cont b) ha hb
   rwa [mergeNode_cont_cont] at this
 
+/-- … and a constructible one (`Valid`: additionally no key ends in an index group, the
+    invariant of every container built through the public API — DESIGN.md section 2, D26) -/
+theorem merge_valid (o : ListStrategy) (a b : AMap Node) (ha : (Node.cont a).Valid) (hb : (Node.cont b).Valid) :
+    (Node.cont (mergeC o a b)).Valid := by
+  refine ⟨merge_wf o a b ha.1 hb.1, ?_⟩
+  have := keysOk_mergeNode o (.cont a) (.cont b) ha.2 hb.2
+  rwa [mergeNode_cont_cont] at this
+
 /-- `mergeContainers` ranges over B's children in Go map order: every visiting order of B's
     entries gives the same result. -/
 theorem merge_order_independent (o : ListStrategy) (a b b' : AMap Node) (ha : AMap.Sorted a)
